@@ -296,6 +296,26 @@ def run(prop, tier):
                     depth=40, seed=seed + 15, timeout=900)
             for tr in tlc.read_sim_traces(os.path.join(simdir, "tr")):
                 behaviours.append(("tlc-sim", tr, consts["Producers"]))
+        goals = {
+            "pause_inside_turn": 'last[1] = "TransportPause" /\\ last[2] # "-"',
+            "resume_inside_turn": 'last[1] = "TransportResume" /\\ last[2] # "-" /\\ depth >= 2',
+            "three_loops_deep": "depth >= 3",
+            "unregister_inside_turn": 'last[1] = "Unregister" /\\ turn # "-"',
+            "register_inside_turn": 'last[1] = "Register" /\\ turn # "-"',
+            "closed_inside_turn": 'last[1] = "SubClosed" /\\ turn # "-"',
+            "stop_with_everyone_running": 'last[1] = "StopUsingConnection" /\\ Cardinality(pset) >= 2 /\\ \\A p \\in pset : sig[p] = "pause"',
+            "everyone_resumed": "~paused /\\ depth = 0 /\\ conn /\\ uset = Producers",
+            "second_turn_for_someone": "\\E p \\in Producers : turns[p] >= 2",
+            "inbound_pause_carried_over": 'last[1] = "UseConnection" /\\ cpaused',
+            "paused_subchannel_closed_connected": 'last[1] = "SubClosed" /\\ iconn /\\ ~cpaused /\\ wantPause = {} /\\ open # Producers',
+            "two_want_pause_one_resumes": 'last[1] = "SubResume" /\\ iconn /\\ cpaused',
+            "register_while_paused_connected": 'last[1] = "Register" /\\ conn /\\ paused /\\ depth = 0',
+        }
+        for name, consts in (("g2", dict(Producers={"p1", "p2"}, MaxSteps=5)), ("g3", dict(Producers={"p1", "p2", "p3"}, MaxSteps=4))):
+            wit, unreached = common.witnesses(wd, "DilationFlow", consts, goals, "MC_C15_goal_" + name)
+            cov.setdefault("witness_goals", {})[name] = {"reached": [g_ for g_, _ in wit], "unreached": unreached}
+            for g_, tr in wit:
+                behaviours.append(("tlc-witness:" + g_, tr, consts["Producers"]))
         pull = pull_producer_probe()
         for origin, tr, producers in behaviours:
             tid += 1
